@@ -11,7 +11,7 @@
    untouched and deliver their result in `res`; `append` is the one mutating operation. *)
 EXTENDS Molecules
 
-Out(A, B, res, err, groups) == [A |-> A, B |-> B, res |-> res, err |-> err, groups |-> groups]
+Out(A, B, res, err, groups) == [A |-> A, B |-> B, res |-> res, err |-> err, groups |-> groups, groups2 |-> groups]
 NoTab == Table(<<>>, <<>>)
 Ok1(A, B, r) == IF IsErr(r) THEN Out(A, B, NoTab, r.err, <<>>) ELSE Out(A, B, r, "", <<>>)
 
@@ -84,10 +84,14 @@ Accepts(op, A, B, o) ==
                                        /\ IsGrouping(A, op.col, o.groups)
                                        /\ \A i \in 1..Len(o.groups) : o.groups[i].tab.cols = A.cols
                                        /\ IsPermOf(ConcatGroups(A.cols, o.groups).rows, A.rows)
+                                       \* a second pass over the same grouping, after the caller edited the groups of the first
+                                       \* pass in place, still delivers the receiver's rows
+                                       /\ IsGrouping(A, op.col, o.groups2)
     [] op.name = "cutby"       -> IF ~HasCol(A, op.col) THEN ErrOnly(A, B, o, {"ColumnNotFound"})
                                   ELSE /\ o.err = "" /\ Untouched(A, B, o)
                                        /\ IsCutting(A, op.col, op.bins, o.groups)
                                        /\ \A i \in 1..Len(o.groups) : o.groups[i].tab.cols = A.cols
+                                       /\ IsCutting(A, op.col, op.bins, o.groups2)
     [] op.name = "reject"      -> o.err # "" /\ Untouched(A, B, o)
     \* operations recorded from arbitrary programs whose argument the specification cannot evaluate (a polars predicate, a
     \* sort expression): the result is an order-preserving selection / a permutation of the receiver's rows, rows intact
